@@ -347,6 +347,10 @@ fn runs_part(out: &mut Out, thorough: bool, rng: &mut Rng) {
         if o.bad_paths > 0 {
             bad.push(format!("{} visited paths are not model paths", o.bad_paths));
         }
+        for b in &o.bad_disc {
+            bad.push(format!("not a genuine witness: {}", b));
+        }
+        out.stat_n("discoveries-of-child-runs-validated", o.disc.len() as u64);
         if o.visited_not_reachable > 0 {
             bad.push(format!("{} evaluated states are not reachable", o.visited_not_reachable));
         }
